@@ -13,7 +13,13 @@ ID = "C06"
 PROPS_FILES = ["Gama/Props/C06.lean"]
 LEAN_TARGETS = ["Gama.Props.C06"]
 DRIVERS = ["drv_cogo"]
-RULE = ("(a') single strategy steps: small in-memory networks (2..7 points; numeric and non-numeric ids in both orders; points "
+RULE = ("(a'') AcordIntersection::execute as a whole on small in-memory networks (2..4 known points, 1..3 points without xy, "
+        "each tied by one of: two outer bearings, bearing + distance, three / two distances, resection from directions or "
+        "angles at the new point, direction + angle, outer angle + distance, azimuth from a known point, azimuth observed AT "
+        "the new point (rule of fix 78a600d), slope distance with zenith angle / with both heights; later points tied to "
+        "earlier ones; random circle orientations; all 8 axes x 2 angle senses; exact 80 % / perturbed), execute() once or "
+        "twice: every point's flags and coordinates, missing_xy_, the orientation Orientation::add_all left on every "
+        "stand-point and completed() are compared; (a') single strategy steps: small in-memory networks (2..7 points; numeric and non-numeric ids in both orders; points "
         "that are 2D, 3D, height-only or undefined; all 8 axes-xy x 2 angle senses; unequal non-zero from_dh/to_dh; exact (80 %) "
         "or perturbed observations) on which ONE execute() of AcordAzimuth / AcordHdiff / AcordVector / AcordZderived "
         "(+ get_medians_z) is run once or twice; distinct by op line, non-trivial = at least one coordinate defined afterwards; "
@@ -33,7 +39,9 @@ LEVEL_TEXT = ("partial: Lean 4 theorems over R about executable models of the ap
               "every orientation in [0,2pi), including the +-pi wrap seam, as repaired by 01e764d), of one "
               "refine_approx_coordinates step (exact units, exactly the free coordinates) and of the fixed point (zero "
               "absolute term for all 13 observation types of the linearisation GENERATED from local_linearization.cpp, "
-              "x = 0 solves the normal equations, the stopping test passes), and of single steps of the Acord2 strategies "
+              "hence zero right-hand side for the WHOLE pass of project_equations (C05's model), hence every solution meeting C01's "
+              "specification IsLSSolution has x = 0, v = 0, [pvv] = 0 when the regularisation resolves the defect, the stopping "
+              "test passes and refine_approx_coordinates changes nothing), and of single steps of the Acord2 strategies "
               "AcordAzimuth (prepare + execute, both id orders), AcordHdiff, AcordVector (chaining loops, both directions, "
               "copy-back), AcordZderived (station from targets and targets from station; horizontal, slope and coordinate "
               "distances; instrument/target heights) with Acord2::get_medians_z: exact observations and a point list whose "
@@ -41,10 +49,24 @@ LEVEL_TEXT = ("partial: Lean 4 theorems over R about executable models of the ap
               "(all axes orientations / angle senses) and every interleaving of these steps; no step clears a flag or "
               "enlarges a missing set, AcordAzimuth / AcordZderived never change a defined coordinate. Two places where "
               "exact data are NOT reproduced are proved as defects and replayed (azimuth 0 with reverse azimuth 200 gon; "
-              "second-face zenith angles in AcordZderived). NOT proved: convergence of the iterated linearisation from "
-              "perturbed / omitted approximate coordinates, the strategies AcordPolar::execute, AcordTraverse, "
-              "AcordIntersection, AcordWeakChecks, Acord2::get_medians (xy) and the completeness of the whole; these are "
-              "covered by the end-to-end search on gama-local only.")
+              "second-face zenith angles in AcordZderived; both repaired since). Round 3b: AcordIntersection::execute with "
+              "ApproximateCoordinates and ApproxPoint (everything but solve_insertion) is modelled and executed next to the real "
+              "class; proved: every pair of observations ApproxPoint::calculation intersects gives no solution or contains the "
+              "true point (no guard hypothesis left), Select_solution_g2d decides for the true point, the median of the "
+              "candidates is the true point, the azimuth rule of fix 78a600d and the slope reductions of the temporary "
+              "stand-point are exact, and the loops (solve_intersection, computational_loop, both ApproximateCoordinates runs "
+              "of an execute call, repeated calls) keep the point list sound PROVIDED ApproxPoint::reset hands exact "
+              "observations on (hypothesis ResetOK - the grouping / normalisation code of reset is executed but not proved). "
+              "Acord2::execute as a state machine: soundness after any number of rounds for any strategy list from per-step "
+              "soundness (discharged for the four modelled strategies and the medians), flags never cleared / missing sets "
+              "never grow for arbitrary data, values kept for exact data (with the AcordVector and get_medians_z exceptions "
+              "as proved witnesses), termination within |missing| rounds, and 'more observations' monotone per round; a "
+              "proved witness shows why the stop rule 'no progress in one round' does not lift this to execute. NOT proved: convergence of the iterated linearisation from "
+              "perturbed / omitted approximate coordinates, the strategies AcordPolar::execute, AcordTraverse, AcordWeakChecks, "
+              "ApproximateCoordinates::solve_insertion (finding C06-F21: it publishes wrong points from exact data), "
+              "ApproxPoint::reset and the completeness of the whole; these are covered by the streams / the end-to-end search "
+              "on gama-local only. The scheduling model (Gama/Model/Acord2.lean) is not executed by a driver: changes of "
+              "Acord2::execute are caught by the end-to-end search.")
 LEVEL_NOTE = ("Theorems are about exact real arithmetic; libm and rounding are not modelled. The end-to-end statement "
               "(adjusted = true, zero residuals, nothing removed, for every algorithm) is explored, not proved; "
               "tolerances used by the oracle: 1e-6 m when exact approximate coordinates are supplied, 1e-5 m otherwise "
@@ -54,14 +76,18 @@ LEVEL_NOTE = ("Theorems are about exact real arithmetic; libm and rounding are n
 TECHNIQUE = ("Lean 4 proof (closed-form geometry over R, list induction) + differential correspondence at Float "
              "+ end-to-end property search on gama-local with shrinking")
 TRUSTED = ["harness/c06_cogo.cpp re-declares access (#define private public) for acord2.h / acordpolar.h / acordazimuth.h / "
-           "acordhdiff.h / acordvector.h / acordzderived.h only",
+           "acordhdiff.h / acordvector.h / acordzderived.h / acordintersection.h only",
            "tools/gen/c06_acord.py (true coordinates -> exact observations of the single-step networks)",
            "tools/gen/c06_nets.py (true coordinates -> exact observations) and the regex reader of the result XML",
            "expat (the `net` stream parses generated .gkf files through GKFparser)"]
 MODELLED = ["libm sin/cos/atan2/acos/sqrt (Float primitives of the Lean runtime vs glibc)",
             "std::sort (insertion sort in the model)", "std::map / std::multimap iteration order inside Acord2",
-            "the round robin of Acord2::execute, AcordPolar::execute, AcordTraverse, AcordIntersection, AcordWeakChecks, "
-            "get_medians (xy) and ApproximateCoordinates (not modelled; searched end to end)",
+            "AcordPolar::execute, AcordTraverse, AcordWeakChecks, ApproximateCoordinates::solve_insertion (not modelled; "
+            "searched end to end; the intersection stream counts the cases solve_insertion decides)",
+            "the round robin of Acord2::execute and Acord2::get_medians (modelled in Gama/Model/Acord2.lean, theorems only, "
+            "not executed by a driver)",
+            "Observation::norm_rad_val (fmod) as one conditional +-2pi, exact for the values the code hands to it",
+            "Orientation::add_all per run of one cluster (the flat observation list is grouped by cluster)",
             "PointID::operator< (C07's model Gama/Model/PointId.lean, used by the acord driver)",
             "PointData::xNorthAngle (C05's hand-written model Lin.xNorthAngle, used by the acord driver)",
             "least-squares solve between two refine steps (C01)"]
@@ -69,7 +95,9 @@ ASSUMPTIONS = ["bearing and direction values lie in [0, 2pi) (one pass of the un
                "AcordVector::prepare: every Vectors cluster fills all three buffer slots before the first complete triple "
                "(the buffer is indeterminate in the C++ until then)",
                "AcordHdiff / AcordVector chaining loops: fuel 2*(points+2) passes (every successful pass defines a point)",
-               "Acord2::median is only called on non-empty vectors"]
+               "Acord2::median is only called on non-empty vectors",
+               "C06_acord_intersection_sound_partial: ApproxPoint::reset hands exact observations to the calculation (ResetOK)",
+               "intersection stream: point ids of an observation are distinct; the static small-angle limit starts at 0.15"]
 
 SRC = """e3 ellipsoid ellipsoids gon2deg latlong outstream comb simplified statan utf8 version adj/adj adj/adj_input_data
 adj/icgs xml/baseparser xml/encoding_cp1251 xml/encoding xml/encoding_unknown_handler xml/gkfparser xml/str2xml
@@ -551,9 +579,48 @@ def inter_superset(impl, model):
             return False
         if ta[0] == "pt" and (ta[1] != tb[1] or (tb[2] == "1" and ta[2] != "1") or ta[5:7] != tb[5:7]):
             return False
-        if ta[0] == "ori" and tb[2] == "1" and ta[2] != "1":
-            return False
     return True
+
+
+def strip_temp(line):
+    """the op without the observations that only the temporary stand-point of AcordIntersection::execute uses
+    (azimuths, slope distances, zenith angles), one execute() call"""
+    t = line.split()
+    out = t[:2] + ["1"] + t[3:5]
+    i = 5
+    while i < len(t):
+        k = t[i]
+        n = {"P": 9, "S": 2, "H": 1, "V": 1, "ang": 5, "sd": 6, "za": 6}.get(k, 4)
+        if k not in ("az", "sd", "za"):
+            out += t[i:i + n]
+        i += n
+    return " ".join(out)
+
+
+def inserted_first(exe, drv, line, impl, model):
+    """a disagreement of an intersection case is explained by the unmodelled solve_insertion iff on the case stripped
+    of the inputs of the temporary stand-point the implementation still publishes, for every point on which the two
+    answers differ, the value it published on the full case, while the model publishes nothing for it"""
+    if len(impl) != len(model):
+        return False
+    st = [strip_temp(line)]
+    (ri, _), (rm, _) = run_cases(exe, [st]), run_cases(drv, [st])
+    pi = {l.split()[1]: l.split() for l in ri[0] if l.startswith("pt ")}
+    pm = {l.split()[1]: l.split() for l in rm[0] if l.startswith("pt ")}
+    seen = False
+    for a, b in zip(impl, model):
+        ta, tb = a.split(), b.split()
+        if ta[:1] != tb[:1]:
+            return False
+        if ta[0] != "pt" or lines_equal(a, b, rtol=1e-9, atol=1e-7):
+            continue
+        pid = ta[1]
+        if ta[2] != "1" or pid not in pi or pid not in pm:
+            return False
+        if pm[pid][2] == "1" or pi[pid][2:5] != ta[2:5]:
+            return False
+        seen = True
+    return seen
 
 
 def f21_registered(ctx):
@@ -602,6 +669,9 @@ def acord_stream(ctx, corr, exe, drv, n):
                 # model; what the model publishes must then be published identically, the rest is left to the oracle
                 corr.count("acord_intersection_insertion_further")
                 ok = True
+            if not ok and not why and inserted_first(exe, drv, c[0], impl[i], model[i]):
+                corr.count("acord_intersection_insertion_first")
+                ok = True
             if why and m.get("truth") and A.check(m, model[i]) is None and inter_superset(impl[i], model[i]):
                 # exact data, the model (everything but solve_insertion) publishes true points only and the
                 # implementation a wrong one: finding C06-F21 (solve_insertion works in a local frame with orientations
@@ -628,7 +698,7 @@ def acord_stream(ctx, corr, exe, drv, n):
     if thin and n >= 1000:
         corr.inconclusive.append("acord stream: too few cases for branch(es) " + ", ".join(thin))
     ni = corr.stats.get("acord_intersection", 0)
-    nins = corr.stats.get("acord_intersection_insertion_further", 0) + corr.stats.get("acord_intersection_insertion_wrong", 0)
+    nins = sum(corr.stats.get("acord_intersection_insertion_" + k, 0) for k in ("further", "wrong", "first"))
     if ni >= 100 and nins > 0.1 * ni:
         corr.inconclusive.append(f"acord stream: solve_insertion (not modelled) decided {nins} of {ni} intersection cases")
 
